@@ -14,7 +14,11 @@ Inductive c20_case :=
 (* one table row: its site index, the emission built from it (None: unresolved, not executable), what happened *)
 | KRow (site : N) (e : option emission) (obs : outcome)
 (* one request on a leader: outcome class, revisions it allocated, health probe, progress probe *)
-| KReq (r : request) (o : req_outcome) (alloc : Z) (health progress : bool).
+| KReq (r : request) (o : req_outcome) (alloc : Z) (health progress : bool)
+       (lst : option (Z * bool))          (* list responses: number of kvs returned, More *)
+(* one pure watch on an etcd stream of a leader, ended by a client cancel request or by the stream:
+   how many Canceled responses with CompactRevision = 0 the server sent for its watch id *)
+| KCancel (client_cancelled : bool) (canceled_responses : N).
 
 Fixpoint find_row (site : N) (t : list row) : option row :=
   match t with
@@ -43,13 +47,19 @@ Definition c20_check (t : list row) (c : c20_case) : bool :=
       | Some r, None => match r_name r, r_labels r with Some _, Some ls => existsb (fun l => match snd l with VUnknown => true | _ => false end) ls | _, _ => true end
       | None, _ => false
       end
-  | KReq r o alloc _ _ =>
+  | KReq r o alloc _ _ lst =>
       match o, handle r with
       | (OResp | OErr), HReject => (match o with OErr => true | _ => false end) && (alloc =? 0)%Z
       | (OResp | OErr), HRun n => (alloc =? Z.of_N n)%Z
       | (OResp | OErr), HPanic => false
       | _, _ => true      (* a crash is the oracle's business *)
+      end &&
+      match o, lst, list_limit_of r with
+      | OResp, Some (count, more), Some limit => list_response_ok limit count more
+      | OResp, None, Some _ => false
+      | _, _, _ => true
       end
+  | KCancel cc n => n =? watch_cancel_responses true cc
   end.
 
 Definition all_ok (obs : list outcome) : bool := forallb (fun o => outcome_eqb o Ok) obs.
@@ -65,8 +75,13 @@ Definition c20_oracle (gn : option (list str)) (t : list row) (c : c20_case) : o
       | Some gn, Some r => ok_if (row_ok gn t r)
       | _, _ => Some 0
       end
-  | KReq _ o _ health progress =>
+  | KReq _ o _ health progress _ =>
       ok_if (match o with OResp | OErr => true | _ => false end && health && progress)
+  | KCancel _ n =>
+      (* etcd protocol: one Canceled response per watch; a second one makes etcd clientv3 v3.5.2 panic
+         (close of closed channel), which kills a follower that forwards watches through its etcd proxy:
+         finding C20-F1 *)
+      ok_or (n <=? 1) 1
   end.
 
 (* validity of a recorded metric case: the regenerated table passes the check (Gen.MetricsTableOk.table_ok)
@@ -78,5 +93,6 @@ Definition c20_valid (gn : option (list str)) (t : list row) (c : c20_case) : Pr
   | KRows g _ _ _ =>
       exists gn', gn = Some gn' /\ map fst g = gn' /\ Forall (fun v => valid_utf8 v = true) (map snd g) /\ check gn' t = true
   | KRow _ _ _ => check_program gn t = true
-  | KReq _ _ _ _ _ => False
+  | KReq _ _ _ _ _ _ => False
+  | KCancel cc _ => cc = false
   end.
